@@ -7,7 +7,12 @@
 * ``CallSystem``: generic explorer system for objects that are *called* repeatedly.  Invariant: the
   observation of every call equals the observation a freshly constructed object makes for that single call;
   a call raises only if the fresh object raises the same exception type for it; the configuration attributes
-  never change.
+  never change.  Every call alphabet is expected to contain requests of each EXIT CLASS the class has -- a normal
+  result, an empty result (early return: nothing detected / nothing fitted) and a request that raises (on a
+  fresh object too) -- because per-call state that is restored on the normal exit only is invisible otherwise;
+  ``exit_tag`` names the exit class of an observation, the transitions per exit class are counted
+  (``calls_exit_*``: measured, vacuity guard) and a configuration change caused by a non-normal exit gets its
+  own violation key (``...:after-<exit>``).
 """
 import hashlib
 import warnings
@@ -195,6 +200,17 @@ class CallSystem:
         """class that owns configuration attribute ``attr`` (site of a config-changed violation)"""
         return self.name
 
+    def is_empty(self, op, obs):
+        """True if the (non-raising) observation is the class's 'nothing found / nothing fitted' early return"""
+        return obs is None
+
+    def exit_tag(self, op, obs):
+        """exit class of one executed request: '' (normal result), 'raised' or 'empty-result' (sub-classes may
+        name the early-return path more precisely)"""
+        if isinstance(obs, Raised):
+            return 'raised'
+        return 'empty-result' if self.is_empty(op, obs) else ''
+
     def apply(self, st, op, report):
         op = tuple(op) if isinstance(op, list) else op
         dirty_before = self.dirty(st.obj)
@@ -203,14 +219,26 @@ class CallSystem:
         exp = self.fresh(op)
         self.counters['calls'] += 1
         tally_fresh(self, exp, self.expected_invalid(op), op)
+        # exit class measured on the FRESH object (what the request does when nothing came before it)
+        tag = self.exit_tag(op, exp)
+        ck = 'calls_exit_' + (tag or 'normal')
+        self.counters[ck] = self.counters.get(ck, 0) + 1
+        if len(st.hist) >= 2:
+            ptag = st.aux.get('prev_exit', '')
+            if ptag:        # a request executed straight after a request that left by an exceptional exit
+                ck = 'calls_straight_after_exit_' + ptag
+                self.counters[ck] = self.counters.get(ck, 0) + 1
+        st.aux['prev_exit'] = tag
         c = compare(obs, exp, self.rtol, self.atol)
         if c:
             report('call-' + c[0], self.site(op, dirty_before), short(obs, 300), short(exp, 300), c[1])
+        otag = self.exit_tag(op, obs)
         for k in self.dirty(st.obj):
             if k not in dirty_before:
-                report('config-changed', f'{self.owner(k)}.{k}', short(self.config(st.obj)[k], 200),
-                       'the value given to the constructor',
-                       f'{self.opname(op)} changed the configuration attribute {k!r} of the instance')
+                report('config-changed', f'{self.owner(k)}.{k}' + (f':after-{otag}' if otag else ''),
+                       short(self.config(st.obj)[k], 200), 'the value given to the constructor',
+                       f'{self.opname(op)} changed the configuration attribute {k!r} of the instance'
+                       + (f' (the call left by its {otag!r} exit)' if otag else ''))
         return True
 
     def invariant(self, st, report):
